@@ -288,6 +288,9 @@ def free_syms(e, acc=None):
             acc.setdefault(e[1], "R")
         elif e[0] == "v":
             acc.setdefault(e[1], "vec3")
+        elif e[0] == "fn":  # uninterpreted real function applied to an argument
+            acc.setdefault(e[1], "R -> R")
+            free_syms(e[2], acc)
         else:
             for x in e[1:]:
                 free_syms(x, acc)
@@ -315,6 +318,8 @@ def to_coq(e):
         return "(%s ^ %d)" % (to_coq(e[1]), e[2])
     if k in ("exp", "sqrt", "ln"):
         return "(%s %s)" % (k, to_coq(e[1]))
+    if k == "fn":
+        return "(%s %s)" % (e[1], to_coq(e[2]))
     if k == "abs":
         return "(Rabs %s)" % to_coq(e[1])
     if k == "sign":
@@ -387,6 +392,8 @@ def evalf(e, val):
         return -evalf(e[1], val)
     if k == "pow":
         return evalf(e[1], val) ** e[2]
+    if k == "fn":
+        return val[e[1]](evalf(e[2], val))
     if k == "exp":
         return math.exp(evalf(e[1], val))
     if k == "sqrt":
